@@ -1,11 +1,70 @@
 (* Properties/C16.v — statements only.  "Staked VET is fully accounted for and withdrawable exactly once".
-   Model: Staker/Model.v (transcription of builtin/staker + the value statements of staker.sol). *)
+   Model: Staker/Model.v (transcription of builtin/staker + the value statements of staker.sol).
+   Invariant: InvAll s = exists la lq, WF s la lq /\ Inv1 s /\ InvA s   (Staker/Inv.v)
+     Inv1: locked = sum(v.Locked) + sum(agg.Locked); queued = sum(v.Queued) + sum(agg.Pending); cooldown = sum(v.Cooldown);
+           withdrawable + sum(agg.Locked) + sum(agg.Pending) = sum(v.Withdrawable) + sum(delegation.Stake);
+           effectiveVET = (locked + queued + withdrawable + cooldown) * 1e18 <= balance. *)
 From Coq Require Import List NArith Bool Lia.
-From Verif Require Import Common.Util Staker.Model Staker.Base Staker.ProofsStep.
+From Verif Require Import Common.Util Staker.Model Staker.Base Staker.Lists Staker.Inv Staker.ProofsStep Staker.ProofsUser Staker.ProofsHist.
 Import ListNotations.
 Open Scope N_scope.
 
-(* WithdrawStake pays exactly the free buckets: withdrawable + queued, and the cooldown bucket only once
+(* ---- counters = sums, tracked total = counters, balance >= tracked total ---- *)
+
+(* FULL statement (not proved in full): the invariant holds after every history from the initial state *)
+Definition counters_sum_statement : Prop :=
+  forall c d m ops, InvAll (run c (init d m) ops).
+
+(* proved: the invariant holds initially and is preserved by EVERY user operation (add-validation, increase / decrease
+   stake, signal-exit, withdraw, set-online, set-beneficiary, add-delegation, signal-delegation-exit, withdraw-delegation,
+   reward, parameter change, forced donation), successful or reverted, and by every block that is not an epoch boundary.
+   Missing for the full statement: preservation by the epoch-boundary step (housekeeping renewals / exit / evictions /
+   activations and the PoA->PoS transition) — kept as the explicit premise [epoch_step_preserves]. *)
+Theorem counters_sum_partial c d m ops :
+  epoch_step_preserves c -> InvAll (run c (init d m) ops).
+Proof. intros H. apply run_InvAll; auto. apply InvAll_init. Qed.
+
+Theorem counters_sum_initial d m : InvAll (init d m).
+Proof. exact (InvAll_init d m). Qed.
+
+Theorem counters_sum_every_user_operation c o s la lq :
+  is_block o = false -> WF s la lq -> Inv1 s -> InvA s ->
+  exists lq', WF (step c s o) la lq' /\ Inv1 (step c s o) /\ InvA (step c s o).
+Proof.
+  intros Hb H1 H2 H3. destruct (user_step_ok c o s la lq Hb H1 H2 H3) as [lq' [A [B [_ C]]]]. exists lq'; auto.
+Qed.
+
+(* unconditional for histories that contain no epoch-boundary block (any number of actors and operations) *)
+Theorem counters_sum_between_epochs c s ops la lq :
+  WF s la lq -> Inv1 s -> InvA s -> no_epoch_block c s ops ->
+  exists lq', WF (run c s ops) la lq' /\ Inv1 (run c s ops) /\ InvA (run c s ops).
+Proof.
+  intros H1 H2 H3 H4. destruct (run_InvAll_no_epoch c s ops la lq H1 H2 H3 H4) as [lq' [A [B [C _]]]]. exists lq'; auto.
+Qed.
+
+(* what the invariant says about money: effectiveVET is exactly the sum of what every validation holds
+   (locked + queued + cooldown + withdrawable) plus every delegation's remaining stake, and the contract owns at least that *)
+Theorem tracked_total_is_sum_of_holdings s : Inv1 s ->
+  eff s = (sumf held (vals s) + sumf d_stake (dels s)) * e18 /\ eff s <= bal s /\
+  g_lv s + g_q s + g_wd s + g_cd s = sumf held (vals s) + sumf d_stake (dels s).
+Proof. exact (effective_is_sum_of_holdings s). Qed.
+
+(* ---- custody ---- *)
+
+(* FULL per-staker statement over histories (not proved; evaluated on the implementation by the harness ledger):
+   for every validation a, deposits(a) = withdrawals(a) + held(a) along every history *)
+Definition held_by (s : st) (a : N) : N := match getv s a with Some v => held v | None => 0 end.
+Definition paid_in (c : cfg) (s : st) (o : op) (a : N) : N :=
+  match o with
+  | OAddValidation a' _ _ vet | OIncrease a' _ vet => if (a' =? a) && (fst (answer c s o) =? 0) then vet else 0
+  | _ => 0
+  end.
+Definition paid_out (c : cfg) (s : st) (o : op) (a : N) : N :=
+  match o with OWithdraw a' _ => if a' =? a then snd (answer c s o) else 0 | _ => 0 end.
+Definition custody_statement : Prop :=
+  forall c s o a, InvAll s -> held_by (step c s o) a + paid_out c s o a = held_by s a + paid_in c s o a.
+
+(* proved: WithdrawStake pays exactly the free buckets: withdrawable + queued, and the cooldown bucket only once
    exit block + cooldown period <= current block; the locked bucket is never paid; only the endorser is served *)
 Theorem withdraw_only_free_stake c a e s s1 x v :
   withdraw_stake c a e s = Ok (s1, x) -> getv s a = Some v ->
@@ -14,8 +73,8 @@ Theorem withdraw_only_free_stake c a e s s1 x v :
   /\ v_endorser v = e.
 Proof. exact (withdraw_stake_amount c a e s s1 x v). Qed.
 
-(* WithdrawDelegation pays only a delegation that has not started or has ended, pays its whole stake, and leaves the
-   stake at 0: whatever a later withdrawal of the same id does, it pays 0 *)
+(* proved: WithdrawDelegation pays only a delegation that has not started or has ended, pays its whole stake, and leaves
+   the stake at 0: whatever a later withdrawal of the same id does, it pays 0 *)
 Theorem delegation_withdrawn_once id s s1 x :
   withdraw_delegation id s = Ok (s1, x) ->
   exists d v, get (dels s) id = Some d /\ getv s (d_val d) = Some v /\ x = d_stake d /\
@@ -23,5 +82,27 @@ Theorem delegation_withdrawn_once id s s1 x :
     exists d1, get (dels s1) id = Some d1 /\ d_stake d1 = 0.
 Proof. exact (withdraw_delegation_pays_stake id s s1 x). Qed.
 
+(* ---- non-vacuity: a history of two actors (deposit, failed and successful operations, a withdrawal while queued)
+        satisfies the hypotheses of counters_sum_between_epochs from the initial state and moves money ---- *)
+Definition ex_cfg : cfg := mkC 4 8 12 16 4 8 8 0 0.
+Definition ex_ops : list op :=
+  [OAddValidation 161 57505 8 25000000; OAddDeleg 161 1000 200; OAddValidation 162 57506 12 30000000;
+   OBlock; OIncrease 161 57505 5; OWithdrawDeleg 1; OBlock; OWithdraw 162 57506; OWithdraw 162 57506; OBlock].
+Example ex_no_epoch_block : no_epoch_block ex_cfg (init 7 3) ex_ops.
+Proof. vm_compute. repeat split; intros; discriminate. Qed.
+Example ex_moves_money :
+  let s := run ex_cfg (init 7 3) ex_ops in
+  (g_q s, eff s, map (fun o => answer ex_cfg (init 7 3) o) [OAddValidation 161 57505 8 25000000]) =
+  (25000000, 25000000 * e18, [(0, 0)]).
+Proof. vm_compute. reflexivity. Qed.
+Example ex_hyps_hold : exists lq, WF (init 7 3) [] lq /\ Inv1 (init 7 3) /\ InvA (init 7 3).
+Proof. destruct (InvAll_init 7 3) as [la [lq [H1 [H2 H3]]]]. exists []. split; [|split]; auto.
+  constructor; [constructor; cbn; auto; constructor|constructor; cbn; auto; constructor|intros a v H; discriminate]. Qed.
+
+Print Assumptions counters_sum_partial.
+Print Assumptions counters_sum_initial.
+Print Assumptions counters_sum_every_user_operation.
+Print Assumptions counters_sum_between_epochs.
+Print Assumptions tracked_total_is_sum_of_holdings.
 Print Assumptions withdraw_only_free_stake.
 Print Assumptions delegation_withdrawn_once.
